@@ -96,3 +96,104 @@ def list_fact(ir, name):
     if isinstance(ir, tuple) and ir and ir[0] == 'SelectorList':
         return dict(ir[1:]).get(name)
     return None
+
+
+# ---- the public API by interpretation ------------------------------------------------------------------------------------------
+XHTML_NS = 'http://www.w3.org/1999/xhtml'
+KINDS = {
+    # kind -> (is_xml flag of every node, namespace of elements)
+    'html': (False, None),            # html.parser
+    'html5': (False, XHTML_NS),       # html5lib / lxml HTML: elements carry the XHTML namespace, the tree is not XML
+    'xhtml': (True, XHTML_NS),        # lxml-xml, root in the XHTML namespace
+    'xml': (True, None),              # lxml-xml, no namespace
+}
+
+
+def make_doc(spec, kind='html'):
+    """(document object, nodes in document order, labels) for a tree specification (see sa.tables.build_tree)."""
+    from .tables import build_tree
+    is_xml, ns = KINDS[kind]
+    return build_tree(spec, is_xml=is_xml, namespace=ns)
+
+
+def api(ctx, fn: str, *args, **kwargs):
+    """soupsieve.<fn>(*args, **kwargs) by interpretation of the package source: ('ok', value) or ('raises', exception name).
+    Lists / iterators of nodes are returned as Python lists of the abstract nodes."""
+    from .props.sem import strict_lower
+    opts = {'regex_engine': True, 'real_immutable': True, 'max_depth': 250, 'no_const_shortcut': True,
+            'persist': ctx._cache.setdefault('e2e-persist-real', {})}
+    try:
+        r = call_function(ctx, f'__init__.{fn}', list(args), dict(kwargs), {'util.lower': strict_lower}, None, opts)
+        if fn == 'iselect' or (r is not None and not isinstance(r, (Obj, str, int, bool, list, tuple, dict))):
+            r = list(r)
+        return ('ok', r)
+    except Raised as e:
+        return ('raises', e.exc_name)
+    except RecursionError:
+        raise AnalysisError(f'soupsieve.{fn}{args[:1]!r}: the evaluator ran out of stack')
+    except Unsupported as e:
+        raise AnalysisError(f'soupsieve.{fn}({args[0]!r}, ...): outside the evaluable fragment: {e}')
+
+
+def label(n):
+    from .tables import TextNode
+    if n is None:
+        return None
+    if isinstance(n, TextNode):
+        return repr(str(n))[:16]
+    return object.__getattribute__(n, '_name') if isinstance(n, Obj) else repr(n)
+
+
+def elements(order):
+    from .tables import TextNode
+    return [n for n in order if not isinstance(n, TextNode)]
+
+
+# ---- batches of API calls on worker processes ---------------------------------------------------------------------------------
+_BATCH: dict = {}
+
+
+def _batch_one(req):
+    ctx, docs = _BATCH['ctx'], _BATCH['docs']
+    doc_key, fn, sel, target, kw = req
+    doc, order, index = docs[doc_key]
+    tgt = doc if target is None else ([order[i] for i in target] if isinstance(target, (list, tuple)) else order[target])
+    try:
+        st, r = api(ctx, fn, sel, tgt, **dict(kw))
+    except AnalysisError as e:
+        return ('analysis-error', str(e))
+
+    def enc(x):
+        if x is doc:
+            return -1
+        return index.get(id(x), repr(x)) if x is not None else None
+    if st != 'ok':
+        return (st, r)
+    if isinstance(r, list):
+        return ('ok', [enc(x) for x in r])
+    if isinstance(r, bool) or r is None:
+        return ('ok', r)
+    return ('ok', enc(r))
+
+
+def batch_api(ctx, docs: dict, requests: list, jobs: int | None = None):
+    """Run API calls in parallel.  docs: key -> (doc, order) as returned by make_doc; a request is
+    (doc key, function, selector, target: None = the document | index into order | list of indices, ((kwarg, value), ...)).
+    Nodes in results are encoded as indices into `order` (-1 = the document object)."""
+    import multiprocessing
+    import os
+    _BATCH['ctx'] = ctx
+    _BATCH['docs'] = {k: (d, o, {id(n): i for i, n in enumerate(o)}) for k, (d, o) in docs.items()}
+    jobs = jobs or int(os.environ.get('SA_JOBS', '0')) or min(12, os.cpu_count() or 1)
+    # warm the caches that every worker would otherwise rebuild (module-level tables, compiled constants, regex parse trees)
+    if requests:
+        _batch_one(requests[0])
+    if jobs <= 1 or len(requests) < 8:
+        out = [_batch_one(r) for r in requests]
+    else:
+        with multiprocessing.get_context('fork').Pool(jobs) as pool:
+            out = pool.map(_batch_one, requests, chunksize=max(1, len(requests) // (jobs * 4)))
+    for r in out:
+        if r[0] == 'analysis-error':
+            raise AnalysisError(r[1])
+    return out
